@@ -383,6 +383,24 @@ def step (st : St) (line : String) : St × String :=
     match gid.toNat? >>= lookup st.groups with
     | some grp => (st, "names " ++ encL (grp.names st.routers))
     | none => (st, "bad-op")
+  | ["group-routes", gid] =>
+    match gid.toNat? >>= lookup st.groups with
+    | some grp =>
+      if grp.routers.any (fun e => st.tainted.contains e.1) then (st, "unsupported")
+      else
+        let es := grp.routers.filterMap (fun e => (st.routers.get? e.1).map (fun r => encB r.tree.name ++ "{" ++ fmtRoutes r.routes ++ "}"))
+        (st, "groutes " ++ ";".intercalate (sortStr es))
+    | none => (st, "bad-op")
+  | ["group-router", gid, name] =>
+    match gid.toNat? >>= lookup st.groups with
+    | some grp =>
+      if grp.routers.any (fun e => st.tainted.contains e.1) then (st, "unsupported")
+      else
+        match (grp.routers.filterMap (fun e => st.routers.get? e.1)).find? (fun r => r.tree.name = decB name) with
+        | some r => (st, "grouter " ++ encB r.tree.name ++ " " ++ fmtRoutes r.routes)
+        | none => (st, "grouter %!")
+    | none => (st, "bad-op")
+  | ["methods"] => (st, "methods " ++ encL methodsTable ++ " any " ++ encL anyMethods)
   | ["gserve", gid, method, path, host, hdrs, accept] =>
     match gid.toNat? >>= lookup st.groups with
     | some grp =>
